@@ -1,10 +1,10 @@
 #!/bin/bash
-# tools/sweep.sh <tier> <seed...> : run every check on the unchanged tree; print one line per (check, seed)
+# tools/sweep.sh <tier> <seed...> : run every check (or those in $CHECKS) on the unchanged tree; print one line per (check, seed)
 tier="$1"; shift
 cd "$(dirname "$0")/.."
+checks="${CHECKS:-$(for i in $(seq -w 1 20); do echo C$i; done)}"
 for s in "$@"; do
-  for i in $(seq -w 1 20); do
-    c="C$i"
+  for c in $checks; do
     out=$(VERIF_SEED=$s VERIF_TIER=$tier ./check $c --tier $tier 2>&1)
     rc=$?
     echo "$c seed=$s tier=$tier exit=$rc $(echo "$out" | grep -c '^VIOLATION') violations; $(echo "$out" | tail -1 | cut -c1-160)"
